@@ -1,26 +1,46 @@
 #!/bin/bash
-# tools/mutant_matrix.sh [pattern]: every seeded change (optionally only those matching the glob pattern) against the
-# check of its own property and related ones; quick tier; writes seeded/MATRIX.txt.  Patches /repo in place: run
-# nothing else against /repo meanwhile.
-cd /verif
-PAT="${1:-C*-*}"
-OUT=/verif/seeded/MATRIX.txt
-touch $OUT
-declare -A EXTRA
-EXTRA[C01]="C12 C11 C15"; EXTRA[C03]="C01 C11 C17"; EXTRA[C11]="C01 C12 C15"; EXTRA[C12]="C01 C15"; EXTRA[C17]="C04"
-EXTRA[C04]="C17 C11"; EXTRA[C14]="C05"; EXTRA[C02]="C06 C10"; EXTRA[C08]="C16"
-for d in seeded/$PAT; do
-  [ -f "$d/patch.diff" ] || continue
-  m=$(basename $d); prop=${m%%-*}
-  grep -v "^$m " $OUT > /tmp/matrix_keep.txt; cp /tmp/matrix_keep.txt $OUT
-  for chk in $prop ${EXTRA[$prop]}; do
-    grep -q "\"property_id\": \"$chk\"" MANIFEST.json || continue
-    r=$(timeout 1800 tools/try_mutant.sh $d/patch.diff $chk 2>&1 | tail -1)
-    git -C /repo checkout -- . 2>/dev/null
-    v=$(grep -cE "^VIOLATION" /tmp/try_mutant.out)
-    i=$(grep -cE "^INCONCLUSIVE" /tmp/try_mutant.out)
-    sig=$(grep -E "^  [a-zA-Z]" /tmp/try_mutant.out | head -1 | cut -c3-90)
-    echo "$m $chk violations=$v inconclusive=$i $r | $sig" | tee -a $OUT
+# tools/mutant_matrix.sh [pattern] [shards]: every seeded change (optionally only those matching the glob pattern)
+# against the check of its own property and related ones; quick tier; writes seeded/MATRIX.txt.
+# Works on scratch worktrees of /repo HEAD and of this /verif's HEAD (one pair per shard, under /tmp/mx, removed at
+# the end), so /repo itself is never patched and evidence/ here is not touched.  COMMIT /verif FIRST: the shards run
+# the committed checks.
+VERIF="$(cd "$(dirname "$0")/.." && pwd)"
+cd "$VERIF"
+PAT="${1:-C*-*}"; SHARDS="${2:-3}"
+OUT="$VERIF/seeded/MATRIX.txt"
+touch "$OUT"
+MX=/tmp/mx; rm -rf $MX; mkdir -p $MX
+git -C /repo worktree prune; git -C "$VERIF" worktree prune
+ls -d seeded/$PAT 2>/dev/null | while read d; do [ -f "$d/patch.diff" ] && basename "$d"; done > $MX/all.txt
+shard() {
+  k="$1"
+  git -C /repo worktree add -q --detach $MX/repo_$k HEAD || exit 2
+  git -C "$VERIF" worktree add -q --detach $MX/verif_$k HEAD || exit 2
+  ln -s "$VERIF/.venv" $MX/verif_$k/.venv
+  declare -A EXTRA
+  EXTRA[C01]="C12 C11 C15"; EXTRA[C03]="C01 C11 C17"; EXTRA[C11]="C01 C12 C15"; EXTRA[C12]="C01 C15"; EXTRA[C17]="C04"
+  EXTRA[C04]="C17 C11"; EXTRA[C14]="C05"; EXTRA[C02]="C06 C10"; EXTRA[C08]="C16 C17"; EXTRA[C10]="C18 C02"
+  export STBEM_REPO=$MX/repo_$k TRY_OUT=$MX/try_$k.out
+  awk -v k="$k" -v n="$SHARDS" 'NR % n == k' $MX/all.txt | while read m; do
+    prop=${m%%-*}
+    for chk in $prop ${EXTRA[$prop]}; do
+      grep -q "\"property_id\": \"$chk\"" "$VERIF/MANIFEST.json" || continue
+      r=$(timeout 2400 $MX/verif_$k/tools/try_mutant.sh "$VERIF/seeded/$m/patch.diff" $chk 2>&1 | tail -1)
+      git -C $MX/repo_$k checkout -- . 2>/dev/null
+      v=$(grep -cE "^VIOLATION" $TRY_OUT)
+      i=$(grep -cE "^INCONCLUSIVE" $TRY_OUT)
+      sig=$(grep -E "^  [a-zA-Z]" $TRY_OUT | head -1 | cut -c3-90)
+      echo "$m $chk violations=$v inconclusive=$i $r | $sig" | tee -a $MX/lines_$k.txt
+    done
   done
-done
-sort -o $OUT $OUT
+  git -C /repo worktree remove --force $MX/repo_$k
+  git -C "$VERIF" worktree remove --force $MX/verif_$k
+}
+for k in $(seq 0 $((SHARDS-1))); do shard $k & done
+wait
+# replace the lines of the seeded changes that were run
+cat $MX/lines_*.txt 2>/dev/null | awk '{print $1}' | sort -u > $MX/ran.txt
+awk 'NR==FNR {ran[$1]=1; next} !($1 in ran)' $MX/ran.txt "$OUT" > $MX/keep.txt
+[ -s $MX/ran.txt ] && cat $MX/keep.txt $MX/lines_*.txt | sort > "$OUT"
+rm -rf $MX
+git -C /repo worktree prune; git -C "$VERIF" worktree prune
